@@ -250,7 +250,7 @@ ALL_LABELS = ['start', 'm.can_disconnect', 'm.is_connected',
               'm.pre_disconnect', 'eio.send', 'handler', 'm.disconnect',
               'm.get_namespaces', 'm.sid_from_eio_sid', 'environ.has',
               'environ.del']
-ASYNC_LABELS = ['start', 'eio.send', 'eio.send_ev', 'handler']
+ASYNC_LABELS = ['start', 'eio.send', 'eio.send_ev', 'task.start', 'handler']
 
 
 class _Contained(Exception):
